@@ -14,6 +14,8 @@ CONSTANTS
   AtomicCommit = TRUE
   SnapshotScan = TRUE
   Alias <- AliasDemo
+  TrackTouch = FALSE
+  MisTag = {}
 INVARIANTS TypeOK ReadsLastCommitted ScansExactMembers IterSound
 PROPERTY OnlyCommitChanges
 CHECK_DEADLOCK FALSE
